@@ -115,7 +115,10 @@ class C11(EngineProp):
 
         handlers = st.tuples(C08().strategy(tier), st.sampled_from([None, None, 0, 1, 2, 3, 5])).map(snap)
         main = st.tuples(genwf.program_strategy(**self.gen_kwargs), st.integers(0, 3)).map(thin)
-        return st.one_of(main, main, main, handlers)
+        from .c05 import C05
+
+        timed = C05().strategy(tier).map(lambda c: {"timed": c})
+        return st.one_of(main, main, main, handlers, timed)
 
     def setup(self):
         m = genwf.M()
@@ -124,8 +127,35 @@ class C11(EngineProp):
         self.cl = m["control_loop"]
         self.adapter = WorkflowTickAdapter
 
+    def _timed_spec(self, tc):
+        """The C05 family: one failing step under a generated retry policy with attempt- AND time-based stop conditions."""
+        if not hasattr(self, "_c05"):
+            from .c05 import C05
+
+            self._c05 = C05()
+            self._c05.setup()
+        policy, stop_tree = self._c05.build_policy(tc)
+        spec = {
+            "steps": [
+                {"name": "a", "accepts": ["GStart"], "workers": 1, "retry": None, "acts": {"GStart": [["send", "E0", tc.get("m", 1), None], ["ret", None]]}},
+                {"name": "b", "accepts": ["E0"], "workers": tc.get("workers", 1), "retry": {"custom": True},
+                 "acts": {"E0": [["sleep", tc["s"]], ["fail", tc["k"], tc["exc"]], ["ret", None]]}},
+                {"name": "fin", "accepts": ["Fin"], "workers": 1, "retry": None, "acts": {"Fin": [["ret", "GStop"]]}},
+            ],
+            "timeout": None,
+            "ext": [[4000.0, "send", "Fin", None, {}]],
+            "ties": tc.get("ties", []),
+        }
+        time_based = any(k in json.dumps(stop_tree) for k in ("delay", "before"))
+        return spec, dict(runtime=genwf.make_runtime(tc["clock"]), retry_builder=lambda s_: policy if s_ else None, horizon=5000.0), time_based
+
     def run_case(self, case):
-        spec = self.prepare(case)
+        run_kw: dict = {}
+        time_based = False
+        if isinstance(case, dict) and "timed" in case:
+            spec, run_kw, time_based = self._timed_spec(json.loads(json.dumps(case["timed"])))
+        else:
+            spec = self.prepare(case)
         r = CaseResult()
         cl = self.cl
         stats = {"ticks": 0, "full": 0, "skipped_full": 0}
@@ -137,7 +167,7 @@ class C11(EngineProp):
             key = (kind, kw.get("field"), kw.get("tick"))
             if key not in seen:
                 seen.add(key)
-                r.v(kind, **kw)
+                r.v(kind, time_based_retry_policy=time_based, **kw)
 
         def hook(runner, tick):
             stats["ticks"] += 1
@@ -217,7 +247,7 @@ class C11(EngineProp):
         rec.tick_hook = hook
 
         async def main():
-            return await genwf.run_program(spec, rec, probe=False)
+            return await genwf.run_program(spec, rec, probe=False, **run_kw)
 
         from .. import boot
         from ..boot import Runaway
@@ -245,6 +275,8 @@ class C11(EngineProp):
         if rec.resumed:
             r.classes.append("resumed")
         r.classes.append("outcome_" + rec.outcome["kind"])
+        if time_based:
+            r.classes.append("time_based_retry_policy")
         if stats["skipped_full"]:
             r.classes.append("long_history_full_rebuild_skipped")
         self._ticks_total = getattr(self, "_ticks_total", 0) + stats["ticks"]
